@@ -75,6 +75,10 @@ impl tx3_tir::compile::Compiler for Compiler {
     type CompilerOp = tir::CompilerOp;
     type Expression = tir::Expression;
 
+    fn reset(&mut self) {
+        self.latest_tx_body = None;
+    }
+
     fn compile(&mut self, tir: &AnyTir) -> Result<CompiledTx, CompileError> {
         let AnyTir::V1Beta0(tx) = tir else {
             return Err(CompileError::UnsupportedTirVersion(tir.version()));
